@@ -10,6 +10,10 @@
 (*   choice    every alternative with every value of the alternative         *)
 (*   list      lengths 0, 1, 2, 3, 1, 2, 3 ... until every item value has    *)
 (*             been used (fixed-size arrays: blocks of that size)            *)
+(*             Rich: and for every two adjacent elements the product of      *)
+(*             {absent, first 5 values} x {absent, first 5 values} (the     *)
+(*             first values of a list are the lengths 0, 1, 2, 3): what an   *)
+(*             element looks like next to what precedes / follows it         *)
 (*   depth     Depth levels of sequence / choice / list are expanded, what   *)
 (*             lies deeper is the minimal value of its type                  *)
 (*   leaves    a small per-type table of content octets (boundary-ish; the   *)
@@ -19,7 +23,8 @@
 (***************************************************************************)
 EXTENDS Constructed
 
-CONSTANT Depth
+CONSTANT Depth,     \* levels of sequence / choice / list that are expanded
+         Rich       \* BOOLEAN: also the pair products of adjacent sequence elements
 
 \* ---- leaves: content octets per primitive type ----------------------------------------------
 LeafData(t) ==
@@ -92,7 +97,8 @@ MaxI(a, b) == IF a >= b THEN a ELSE b
 Pick(L, c) == L[((c - 1) % Len(L)) + 1]
 
 RECURSIVE Vals(_, _), SubLists(_, _, _), MaxLen(_, _), OptRank(_, _), SeqCase(_, _, _, _, _, _),
-          SeqCases(_, _, _, _, _, _), AltCases(_, _, _), ChoiceCases(_, _, _), Items(_, _, _), ListCases(_, _, _, _)
+          SeqCases(_, _, _, _, _, _), AltCases(_, _, _, _), ChoiceCases(_, _, _), Items(_, _, _), ListCases(_, _, _, _),
+          PairCase(_, _, _, _, _, _, _), PairCases(_, _, _, _, _), AllPairs(_, _, _)
 
 SubLists(els, i, d) == IF i > Len(els) THEN <<>> ELSE <<Vals(els[i].ty, d)>> \o SubLists(els, i + 1, d)
 MaxLen(Ls, i) == IF i > Len(Ls) THEN 0 ELSE MaxI(Len(Ls[i]), MaxLen(Ls, i + 1))
@@ -104,20 +110,45 @@ SeqCase(els, Ls, k, p, c, i) ==
     IF i > Len(els) THEN <<>>
     ELSE <<(IF els[i].opt /\ ~Present(k, p, OptRank(els, i)) THEN Absent ELSE Pick(Ls[i], c))>>
          \o SeqCase(els, Ls, k, p, c, i + 1)
-SeqCases(els, Ls, k, np, c, total) ==
-    IF c > total THEN <<>>
-    ELSE <<(<<"s", SeqCase(els, Ls, k, IF c <= np THEN c ELSE 1, c, 1)>>)>> \o SeqCases(els, Ls, k, np, c + 1, total)
+\* cases lo..hi (divide and conquer: the lists run into the thousands, a linear recursion would exhaust the stack)
+SeqCases(els, Ls, k, np, lo, hi) ==
+    IF lo > hi THEN <<>>
+    ELSE IF lo = hi THEN <<(<<"s", SeqCase(els, Ls, k, IF lo <= np THEN lo ELSE 1, lo, 1)>>)>>
+    ELSE LET mid == (lo + hi) \div 2 IN SeqCases(els, Ls, k, np, lo, mid) \o SeqCases(els, Ls, k, np, mid + 1, hi)
 
-AltCases(i, L, j) == IF j > Len(L) THEN <<>> ELSE <<(<<"c", i, L[j]>>)>> \o AltCases(i, L, j + 1)
+\* pair products: elements i and i + 1 run through their options, every other element is present
+PairCap == 5
+Opts(e, L) == (IF e.opt THEN <<Absent>> ELSE <<>>) \o SubSeq(L, 1, IF Len(L) < PairCap THEN Len(L) ELSE PairCap)
+PairCase(els, Ls, i, a, b, c, m) ==
+    IF m > Len(els) THEN <<>>
+    ELSE <<(IF m = i THEN a ELSE IF m = i + 1 THEN b ELSE Pick(Ls[m], c))>> \o PairCase(els, Ls, i, a, b, c, m + 1)
+PairCases(els, Ls, i, x, y) ==
+    LET A == Opts(els[i], Ls[i])
+        B == Opts(els[i + 1], Ls[i + 1])
+    IN  IF x > Len(A) THEN <<>>
+        ELSE IF y > Len(B) THEN PairCases(els, Ls, i, x + 1, 1)
+        ELSE <<(<<"s", PairCase(els, Ls, i, A[x], B[y], x + y, 1)>>)>> \o PairCases(els, Ls, i, x, y + 1)
+AllPairs(els, Ls, i) == IF i >= Len(els) THEN <<>> ELSE PairCases(els, Ls, i, 1, 1) \o AllPairs(els, Ls, i + 1)
+
+AltCases(i, L, lo, hi) ==
+    IF lo > hi THEN <<>>
+    ELSE IF lo = hi THEN <<(<<"c", i, L[lo]>>)>>
+    ELSE LET mid == (lo + hi) \div 2 IN AltCases(i, L, lo, mid) \o AltCases(i, L, mid + 1, hi)
 ChoiceCases(els, i, d) ==
-    IF i > Len(els) THEN <<>> ELSE AltCases(i, Vals(els[i].ty, d), 1) \o ChoiceCases(els, i + 1, d)
+    IF i > Len(els) THEN <<>>
+    ELSE LET L == Vals(els[i].ty, d) IN AltCases(i, L, 1, Len(L)) \o ChoiceCases(els, i + 1, d)
 
 Items(L, start, n) == IF n = 0 THEN <<>> ELSE <<Pick(L, start)>> \o Items(L, start + 1, n - 1)
-\* chunk j = 0, 1, 2 ... has length (j % 3) + 1 and starts after the items of the chunks before it
-ListCases(L, j, start, fixed) ==
-    LET n == IF fixed > 0 THEN fixed ELSE (j % 3) + 1 IN
-    IF start > Len(L) /\ j >= (IF fixed > 0 THEN 1 ELSE 3) THEN <<>>
-    ELSE <<(<<"l", Items(L, start, n)>>)>> \o ListCases(L, j + 1, start + n, fixed)
+\* chunk j = 0, 1, 2 ... has length (j % 3) + 1 (fixed-size arrays: the fixed size) and starts after the items of the
+\* chunks before it; as many chunks as it takes to use every item value, at least the lengths 1, 2, 3
+ChunkLen(j, fixed)   == IF fixed > 0 THEN fixed ELSE (j % 3) + 1
+ChunkStart(j, fixed) == IF fixed > 0 THEN j * fixed + 1
+                        ELSE 6 * (j \div 3) + (IF j % 3 = 0 THEN 0 ELSE IF j % 3 = 1 THEN 1 ELSE 3) + 1
+NChunks(n, fixed)    == IF fixed > 0 THEN MaxI(1, (n + fixed - 1) \div fixed) ELSE 3 * MaxI(1, (n + 5) \div 6)
+ListCases(L, lo, hi, fixed) ==
+    IF lo > hi THEN <<>>
+    ELSE IF lo = hi THEN <<(<<"l", Items(L, ChunkStart(lo, fixed), ChunkLen(lo, fixed))>>)>>
+    ELSE LET mid == (lo + hi) \div 2 IN ListCases(L, lo, mid, fixed) \o ListCases(L, mid + 1, hi, fixed)
 
 Vals(t, d) ==
     CASE t.k = "atom"      -> AtomVals(t)
@@ -129,7 +160,8 @@ Vals(t, d) ==
                                   k  == OptRank(t.els, Len(t.els))
                                   np == NPat(k)
                               IN  SeqCases(t.els, Ls, k, np, 1, np + MaxLen(Ls, 1))
+                                  \o (IF Rich THEN AllPairs(t.els, Ls, 1) ELSE <<>>)
       [] t.k = "choice"    -> ChoiceCases(t.els, 1, d - 1)
       [] IsList(t)         -> (IF t.fixed > 0 THEN <<>> ELSE <<(<<"l", <<>>>>)>>)
-                              \o ListCases(Vals(t.of, d - 1), 0, 1, t.fixed)
+                              \o (LET L == Vals(t.of, d - 1) IN ListCases(L, 0, NChunks(Len(L), t.fixed) - 1, t.fixed))
 =============================================================================
